@@ -392,6 +392,70 @@ def is_memoised(fi: FunctionInfo) -> bool:
         t = src(d)
         if "lru_cache" in t or t.split("(")[0].split(".")[-1] in ("cache", "cached", "memoize", "memoized", "cached_property"):
             return True
+    return hand_memoised(fi)
+
+
+def module_containers(module) -> set:
+    """Names bound at module level to a mutable container ({} / dict() / [] / OrderedDict() ...): candidates for hand-rolled caches."""
+    out = set()
+    for st in module.tree.body:
+        tg, v = None, None
+        if isinstance(st, ast.Assign) and len(st.targets) == 1 and isinstance(st.targets[0], ast.Name):
+            tg, v = st.targets[0].id, st.value
+        elif isinstance(st, ast.AnnAssign) and isinstance(st.target, ast.Name) and st.value is not None:
+            tg, v = st.target.id, st.value
+        if tg is None:
+            continue
+        if isinstance(v, (ast.Dict, ast.List, ast.Set)) and not getattr(v, "keys", None) and not getattr(v, "elts", None):
+            out.add(tg)
+        elif isinstance(v, ast.Call) and call_name(v) in ("dict", "list", "OrderedDict", "defaultdict", "WeakValueDictionary", "LRU"):
+            out.add(tg)
+    return out
+
+
+def hand_memoised(fi: FunctionInfo) -> bool:
+    """A function that keeps what it returns in a module-level (or class-level / instance) container: `G[key] = v ... return v`,
+    `return G[key]`, `v = G.get(key) ... return v`.  Its result is the same object for every call with the same key."""
+    if isinstance(fi.node, ast.Lambda):
+        return False
+    G = module_containers(fi.module)
+    if not G:
+        return False
+
+    def is_entry(e):
+        if isinstance(e, ast.Subscript) and isinstance(e.value, ast.Name) and e.value.id in G:
+            return True
+        return isinstance(e, ast.Call) and isinstance(e.func, ast.Attribute) and isinstance(e.func.value, ast.Name) and e.func.value.id in G \
+            and e.func.attr in ("get", "setdefault", "pop")
+    stored = set()      # local names stored into a container
+    loaded = set()      # local names read from a container
+    for n in walk_function(fi.node):
+        if isinstance(n, ast.Assign):
+            for t in n.targets:
+                if isinstance(t, ast.Subscript) and isinstance(t.value, ast.Name) and t.value.id in G:
+                    if isinstance(n.value, ast.Name):
+                        stored.add(n.value.id)
+                    elif isinstance(n.value, (ast.Tuple, ast.List)):       # G[key] = (stamp, size, value)
+                        stored |= {x.id for x in n.value.elts if isinstance(x, ast.Name)}
+                if isinstance(t, ast.Name) and is_entry(n.value):
+                    loaded.add(t.id)
+                if isinstance(t, (ast.Tuple, ast.List)) and is_entry(n.value):           # stamp, size, value = G.get(key, ...)
+                    loaded |= {x.id for x in t.elts if isinstance(x, ast.Name)}
+        elif isinstance(n, ast.Expr) and isinstance(n.value, ast.Call) and isinstance(n.value.func, ast.Attribute) and isinstance(n.value.func.value, ast.Name) \
+                and n.value.func.value.id in G and n.value.func.attr in ("setdefault", "append", "__setitem__") and n.value.args and isinstance(n.value.args[-1], ast.Name):
+            stored.add(n.value.args[-1].id)
+    for r in returns_of(fi.node):
+        if r.value is None:
+            continue
+        if is_entry(r.value):
+            return True
+        if isinstance(r.value, ast.Name) and (r.value.id in stored or r.value.id in loaded):
+            return True
+        # a shallow copy of the cached mapping: the values (lists, arrays) are still the cached objects
+        v = r.value
+        if isinstance(v, ast.Call) and ((call_name(v) in ("dict", "Bunch", "OrderedDict") and v.args and isinstance(v.args[0], ast.Name) and v.args[0].id in (stored | loaded))
+                                        or (call_name(v) == "copy" and isinstance(v.func, ast.Attribute) and isinstance(v.func.value, ast.Name) and v.func.value.id in (stored | loaded))):
+            return "copy"
     return False
 
 
@@ -401,9 +465,10 @@ def shared_returning(repo: Repo) -> Dict[str, str]:
     Value: 'array' or 'dict' (a dict whose values are shared arrays)."""
     shared: Dict[str, str] = {}
     for q, fi in repo.functions.items():
-        if is_memoised(fi):
+        m = is_memoised(fi)
+        if m:
             kinds = {"dict" if isinstance(r.value, (ast.Dict, ast.DictComp)) else "array" for r in returns_of(fi.node) if r.value is not None}
-            shared[q] = "dict" if kinds == {"dict"} else "array"
+            shared[q] = "dict" if (kinds == {"dict"} or m == "copy") else "array"
     changed = True
     while changed:
         changed = False
@@ -438,6 +503,12 @@ def shared_kind(repo: Repo, fi: FunctionInfo, du: DefUse, e: ast.AST, at: ast.AS
         if shared_kind(repo, fi, du, e.value, at, shared, depth + 1) == "dict":
             return "array"
     base = view_source(e)
+    if isinstance(base, ast.IfExp):
+        ks = {shared_kind(repo, fi, du, base.body, at, shared, depth + 1), shared_kind(repo, fi, du, base.orelse, at, shared, depth + 1)} - {None}
+        return ("dict" if ks == {"dict"} else "array") if ks else None
+    if isinstance(base, ast.BoolOp):
+        ks = {shared_kind(repo, fi, du, v, at, shared, depth + 1) for v in base.values} - {None}
+        return ("dict" if ks == {"dict"} else "array") if ks else None
     if isinstance(base, ast.Call):
         q = repo.resolve_call(fi, base)
         if q in shared:
@@ -507,6 +578,170 @@ def inplace_mutations(fn_node: ast.AST) -> List[Tuple[ast.stmt, ast.AST]]:
                 out.append((n, c.args[0]))
             elif nm in ("sort", "fill", "resize", "partition", "itemset") and isinstance(c.func, ast.Attribute):
                 out.append((n, c.func.value))
+    return out
+
+
+DICT_CTORS = ("dict", "Bunch", "OrderedDict", "defaultdict")
+
+
+def _dictlike_returns(repo: Repo, fi: FunctionInfo, depth: int = 0) -> bool:
+    """does every value the function returns look like a mapping (dict display, dict(...) / Bunch(...), or the result of such a function)?"""
+    if depth > 4 or isinstance(fi.node, ast.Lambda):
+        return False
+    rets = [r for r in returns_of(fi.node) if r.value is not None]
+    if not rets:
+        return False
+    du = None
+    for r in rets:
+        v = r.value
+        if isinstance(v, ast.Name):
+            du = du or DefUse(fi.node)
+            v = expand_name(du, v, r)
+        if isinstance(v, (ast.Dict, ast.DictComp)):
+            continue
+        if isinstance(v, ast.Call):
+            if call_name(v) in DICT_CTORS:
+                continue
+            q = repo.resolve_call(fi, v)
+            if q and repo.has_fn(q) and _dictlike_returns(repo, repo.fn(q), depth + 1):
+                continue
+        return False
+    return True
+
+
+def shared_dict_functions(repo: Repo) -> set:
+    """Functions that hand out THE SAME mapping object on every call with the same arguments (memoised and mapping-valued), and - to a fixpoint -
+    functions that return the result of such a function unchanged."""
+    cache = repo.__dict__.setdefault("_shared_dict_fns", None)
+    if cache is not None:
+        return cache
+    out = set()
+    for q, fi in repo.functions.items():
+        if is_memoised(fi) is True and _dictlike_returns(repo, fi):
+            out.add(q)
+    changed = True
+    while changed:
+        changed = False
+        for q, fi in repo.functions.items():
+            if q in out or isinstance(fi.node, ast.Lambda):
+                continue
+            du = None
+            for r in returns_of(fi.node):
+                v = r.value
+                if isinstance(v, ast.Name):
+                    du = du or DefUse(fi.node)
+                    v = expand_name(du, v, r)
+                if isinstance(v, ast.Call) and repo.resolve_call(fi, v) in out:
+                    out.add(q)
+                    changed = True
+                    break
+    repo.__dict__["_shared_dict_fns"] = out
+    return out
+
+
+def is_shared_dict_object(repo: Repo, fi: FunctionInfo, du: DefUse, e: ast.AST, at: ast.AST, depth: int = 0) -> bool:
+    """may `e` denote a mapping object that other callers hold too (the result of a memoised mapping-valued function, directly or through a
+    local / an attribute that some method of the class binds to one)?"""
+    sd = shared_dict_functions(repo)
+    if not sd or depth > 5 or e is None:
+        return False
+    if isinstance(e, ast.Call):
+        return repo.resolve_call(fi, e) in sd
+    if isinstance(e, ast.IfExp):
+        return is_shared_dict_object(repo, fi, du, e.body, at, depth + 1) or is_shared_dict_object(repo, fi, du, e.orelse, at, depth + 1)
+    if isinstance(e, ast.Name):
+        return any(d.kind == "assign" and d.value is not None and d.unpack_index is None and is_shared_dict_object(repo, fi, du, d.value, d.stmt, depth + 1)
+                   for d in du.reaching(e.id, at))
+    if isinstance(e, ast.Attribute) and isinstance(e.value, ast.Name) and e.value.id == "self" and fi.cls:
+        clsq = fi.qualname.rsplit(".", 1)[0]
+        for q, m in repo.functions.items():
+            if not q.startswith(clsq + ".") or isinstance(m.node, ast.Lambda):
+                continue
+            dum = None
+            for st in walk_function(m.node):
+                if isinstance(st, ast.Assign) and any(isinstance(t, ast.Attribute) and isinstance(t.value, ast.Name) and t.value.id == "self" and t.attr == e.attr for t in st.targets):
+                    dum = dum or DefUse(m.node)
+                    if is_shared_dict_object(repo, m, dum, st.value, st, depth + 1):
+                        return True
+    return False
+
+
+def shared_dict_mutations(repo: Repo, fi: FunctionInfo):
+    """Key stores / deletions / update / pop on a mapping object that is shared between calls.  -> [(stmt, target, description)]"""
+    if not shared_dict_functions(repo):
+        return []
+    du = DefUse(fi.node)
+    out = []
+    for n in walk_function(fi.node):
+        tgt = None
+        if isinstance(n, (ast.Assign, ast.AugAssign)):
+            for t in (n.targets if isinstance(n, ast.Assign) else [n.target]):
+                if isinstance(t, ast.Subscript) and isinstance(t.slice, ast.Constant) and isinstance(t.slice.value, str):
+                    tgt = t
+        elif isinstance(n, ast.Delete):
+            for t in n.targets:
+                if isinstance(t, ast.Subscript):
+                    tgt = t
+        elif isinstance(n, ast.Expr) and isinstance(n.value, ast.Call) and isinstance(n.value.func, ast.Attribute) and n.value.func.attr in ("update", "pop", "setdefault", "clear", "popitem"):
+            tgt = ast.Subscript(value=n.value.func.value, slice=ast.Constant(value="*"), ctx=ast.Store())
+        if tgt is not None and is_shared_dict_object(repo, fi, du, tgt.value, n):
+            out.append((n, tgt, f"`{src(tgt.value)}` is a mapping that a memoised function hands out to every caller: `{src(n)[:60]}` changes it for all of them"))
+    return out
+
+
+def _param_deps(fi: FunctionInfo, du: DefUse, e: ast.AST, at: ast.AST, params, seen=None, depth: int = 0) -> set:
+    """parameters of `fi` that the value of expression `e` (evaluated at `at`) depends on, through local definitions"""
+    seen = seen if seen is not None else set()
+    out = set()
+    if depth > 8 or e is None:
+        return out
+    for n in ast.walk(e):
+        if isinstance(n, ast.Name) and isinstance(n.ctx, ast.Load):
+            for d in du.reaching(n.id, at):
+                if d.kind == "param":
+                    if d.var in params:
+                        out.add(d.var)
+                elif d.idx not in seen and d.stmt is not None:
+                    seen.add(d.idx)
+                    srcs = []
+                    if isinstance(d.stmt, (ast.Assign, ast.AugAssign, ast.AnnAssign)) and d.stmt.value is not None:
+                        srcs.append(d.stmt.value)
+                    elif isinstance(d.stmt, (ast.For,)):
+                        srcs.append(d.stmt.iter)
+                    elif isinstance(d.stmt, ast.With):
+                        srcs += [it.context_expr for it in d.stmt.items]
+                    for v in srcs:
+                        out |= _param_deps(fi, du, v, d.stmt, params, seen, depth + 1)
+    return out
+
+
+def cache_key_gaps(repo: Repo, fi: FunctionInfo):
+    """A hand-rolled cache `G[key] = value`: every parameter the stored value is computed from must take part in the key, otherwise a later
+    call that differs only in that parameter is served the earlier call's value.  -> [(stmt, missing parameters, key expr)]"""
+    if isinstance(fi.node, ast.Lambda):
+        return []
+    G = module_containers(fi.module)
+    if not G:
+        return []
+    params = set(fi.params) - {"self", "cls"}
+    du = None
+    out = []
+    for n in walk_function(fi.node):
+        key = val = None
+        if isinstance(n, ast.Assign) and len(n.targets) == 1 and isinstance(n.targets[0], ast.Subscript) and isinstance(n.targets[0].value, ast.Name) \
+                and n.targets[0].value.id in G:
+            key, val = n.targets[0].slice, n.value
+        elif isinstance(n, ast.Expr) and isinstance(n.value, ast.Call) and isinstance(n.value.func, ast.Attribute) and isinstance(n.value.func.value, ast.Name) \
+                and n.value.func.value.id in G and n.value.func.attr == "setdefault" and len(n.value.args) == 2:
+            key, val = n.value.args
+        if key is None:
+            continue
+        du = du or DefUse(fi.node)
+        kd = _param_deps(fi, du, key, n, params)
+        vd = _param_deps(fi, du, val, n, params)
+        missing = sorted(vd - kd)
+        if missing:
+            out.append((n, missing, key))
     return out
 
 
@@ -1061,15 +1296,21 @@ def rule_no_shared_mutation(ctx, rule_id: str, functions: Sequence[str], consequ
         q = work.pop()
         fi = repo.fn(q)
         for c, tq in repo.calls_in(fi, include_nested=True):
-            if tq and tq not in seen and repo.has_fn(tq) and tq.rsplit(".", 1)[-1].startswith("_") and not is_memoised(repo.fn(tq)):
+            if tq and tq not in seen and repo.has_fn(tq) and tq.rsplit(".", 1)[-1].startswith("_"):
+                # (memoised helpers included: building its own fresh result in place is fine and not reported, but a memoised helper that works in place
+                #  on the RESULT OF ANOTHER memoised call - itself, recursively, for another key - corrupts that entry)
                 seen.add(tq)
                 work.append(tq)
     for q in sorted(seen):
         fi = repo.fn(q)
-        muts = shared_mutations(repo, fi, shared)
+        muts = shared_mutations(repo, fi, shared) + shared_dict_mutations(repo, fi)
         if not muts:
             ctx.ok(fi, fi.node, f"{q.split('.')[-1]}: no in-place operation on a cached array" + (f" (memoised: {sorted(shared)})" if shared else ""),
                    "arrays modified in place are fresh for every call", key="shared:" + q)
         for st, tgt, why in muts:
             ctx.violation(fi, st, st, f"{why}: `{src(st)[:70]}` changes it for every later call with the same arguments - {consequence}",
                           key="shared:" + q + ":" + norm(tgt)[:40], name_free=True)
+        for st, missing, key in cache_key_gaps(repo, fi):
+            ctx.violation(fi, st, st, f"the value kept in the cache is computed from {missing} but the key `{src(key)[:60]}` does not depend on "
+                          f"{'it' if len(missing) == 1 else 'them'}: a later call that differs only in {missing} is served the value of the earlier call - {consequence}",
+                          key="cache-key:" + q, name_free=True)
